@@ -30,7 +30,9 @@ Definition round_haz (x : Q) : Z :=
 Definition round2 (x : Q) : Q := inject_Z (round_haz (x * 100)) / 100.
 Definition round3 (x : Q) : Q := inject_Z (round_haz (x * 1000)) / 1000.
 
-Definition qsum (l : list Q) : Q := fold_right Qplus 0 l.
+(* sums are kept in lowest terms while they are evaluated (the value is the plain sum: Qred x == x);
+   without this the denominators of a 365-term sum of dyadic numbers grow to 10^5 bits *)
+Definition qsum (l : list Q) : Q := fold_right (fun x acc => Qred (x + acc)) 0 l.
 
 Definition opt_close (f : Q -> Q -> bool) (a b : option Q) : bool :=
   match a, b with
